@@ -49,7 +49,9 @@ def line_rules(F, rep, rule="LINE"):
             if ifs:
                 guard_if = ifs[0]
                 branch = "then" if any(x is n for x in nodes(guard_if["t"])) else "else"
-            if loop is not None and one and _counts_newlines(loop["iter"]):
+            counts = inc.get("k") == "MethodCall" and inc["m"] == "count" and _counts_newlines(inc["recv"]) and \
+                not any(c["m"] in ("lines", "split") for c in nodes(inc, "MethodCall"))
+            if (loop is not None and one and _counts_newlines(loop["iter"])) or (loop is None and counts):
                 per_newline[branch] = True
             elif loop is None and one:
                 # guarded by a token test
